@@ -629,7 +629,10 @@ def entry_point_process(acc, spec, rng):
     port = sock.getsockname()[1]
     sock.close()
     v1 = spec["shard"] % 8 == 5
-    envv = dict(os.environ, PYTHONHASHSEED="0", PYTHONDONTWRITEBYTECODE="1")
+    import tempfile as _tf
+    import shutil as _sh
+    mgr_tmp = _tf.mkdtemp(prefix="pv-c03-mgr-")
+    envv = dict(os.environ, PYTHONHASHSEED="0", PYTHONDONTWRITEBYTECODE="1", PV_MGR_TMP=mgr_tmp)
     child = subprocess.Popen([sys.executable, "-m", "pv.props.c03", "--manager-child",
                               str(port), "1" if v1 else "0"], cwd=env.VERIF, env=envv,
                              stdout=subprocess.DEVNULL, stderr=subprocess.DEVNULL)
@@ -763,6 +766,7 @@ def entry_point_process(acc, spec, rng):
         if child.poll() is None:
             child.kill()
         child.wait(10)
+        _sh.rmtree(mgr_tmp, ignore_errors=True)
 
 
 BAIT_WAIT_S = 60
@@ -849,7 +853,9 @@ def manager_child(argv):
         bus.read_latency = float(slow)
     lp.HSM2ProtocolLedger.OPEN_APP_WAIT = 0
     Platform.set(Platform.LEDGER)
-    d = tempfile.mkdtemp(prefix="pv-c03-mgr-")
+    # (the parent kills this process when it is done with it: the directory is the
+    # parent's to make and to remove)
+    d = os.environ.get("PV_MGR_TMP") or tempfile.mkdtemp(prefix="pv-c03-mgr-")
     pinp = os.path.join(d, "pin.txt")
     with open(pinp, "wb") as f:
         f.write(b"abcd1234")
@@ -901,8 +907,12 @@ def replay(case, acc):
         sock.bind(("127.0.0.1", 0))
         port = sock.getsockname()[1]
         sock.close()
+        import tempfile as _tf
+        import shutil as _sh
+        mgr_tmp = _tf.mkdtemp(prefix="pv-c03-mgr-")
         child = subprocess.Popen([sys.executable, "-m", "pv.props.c03", "--manager-child",
                                   str(port), "1" if case.get("v1") else "0"], cwd=env.VERIF,
+                                 env=dict(os.environ, PV_MGR_TMP=mgr_tmp),
                                  stdout=subprocess.DEVNULL, stderr=subprocess.DEVNULL)
         try:
             t0 = time.time()
@@ -918,6 +928,7 @@ def replay(case, acc):
         finally:
             child.kill()
             child.wait(10)
+            _sh.rmtree(mgr_tmp, ignore_errors=True)
         return
     elif case["kind"] == "depth":
         # (the stack depth of the replay differs from the run's: neighbours too)
